@@ -3,7 +3,7 @@
 set -e
 T=/verif/.cache/tmp/adhoc; mkdir -p $T
 export VERIF_TMP=/verif/.cache/tmp TZ=UTC
-/verif/.cache/bin/vh gen "$1" "$2" "$3" > $T/ops
-/verif/.cache/bin/vh impl < $T/ops > $T/impl 2>$T/impl.err
+${VH:-/verif/.cache/bin/vh} gen "$1" "$2" "$3" > $T/ops
+${VH:-/verif/.cache/bin/vh} impl < $T/ops > $T/impl 2>$T/impl.err
 /verif/lean/.lake/build/bin/tvdriver < $T/ops > $T/model
 paste -d'\n' $T/ops $T/impl $T/model | awk 'NR%3==1{op=$0} NR%3==2{i=$0} NR%3==0{ if (i!=$0) {n++; if (n<='"${4:-5}"') {print "OP    " op; print "IMPL  " i; print "MODEL " $0; print ""}} } END{print "diffs:", n+0, "of", NR/3}'
